@@ -324,14 +324,14 @@ def q5_level_change(ctx) -> None:
             ctx.violation("Q5", w, "level bookkeeping happens before the exhaustion test: an exhausted queue changes state and stops signalling exhaustion")
     # Q10: the carried-over labels are distinct and next_level is emptied afterwards
     ext = [c for c in walk_local(f) if isinstance(c, ast.Call) and isinstance(c.func, ast.Attribute) and c.func.attr in ("extend",)
-           and "curr_level" in norm(c.func.value)]
+           and "curr_level" in norm(D.expanded(f, c.func.value))]
     if not ext:
         ctx.violation("Q10", f, "_change_level does not move next_level into the current level", construct=f"{Q}._change_level carry")
     for c in ext:
         t = norm(D.expanded(f, c))
         if "self.next_level.elements()" in t:
             ctx.violation("Q10", c, "labels are carried over with multiplicity: the same label is expanded several times per level")
-        elif norm(c.func.value) != "self.curr_level[0]":
+        elif norm(D.expanded(f, c.func.value)) != "self.curr_level[0]":
             ctx.violation("Q10", c, "carried-over labels must start at the first expansion set (curr_level[0])")
         elif "self.next_level" in t:
             ctx.ok("Q10", "carried-over labels are the distinct keys of next_level, placed in curr_level[0]")
